@@ -505,7 +505,17 @@ def _handler_benign(h: ast.ExceptHandler) -> bool:
     return all(isinstance(s, (ast.Pass, ast.Continue)) or (isinstance(s, ast.Expr) and isinstance(s.value, ast.Constant)) for s in h.body)
 
 
-def header_deletions(stmts, hdrs_path: str, bound: Optional[Dict[str, List[str]]] = None) -> List[Tuple[str, ast.AST, bool]]:
+def _callee(mod, clsname: Optional[str], call: ast.Call):
+    """same-module function / same-class method a call refers to (or None)"""
+    f = call.func
+    if isinstance(f, ast.Name) and f.id in mod.funcs:
+        return mod.funcs[f.id], False
+    if isinstance(f, ast.Attribute) and isinstance(f.value, ast.Name) and f.value.id in ("self", "cls") and clsname and ("%s.%s" % (clsname, f.attr)) in mod.funcs:
+        return mod.funcs["%s.%s" % (clsname, f.attr)], True
+    return None, False
+
+
+def header_deletions(stmts, hdrs_path: str, bound: Optional[Dict[str, List[str]]] = None, mod=None, clsname: Optional[str] = None, depth: int = 2) -> List[Tuple[str, ast.AST, bool]]:
     """(lower-cased header name, node, swallowed) for deletions that happen on
     every normal pass through ``stmts``: ``del H[c]``, ``H.pop(c, d)``, the same
     as first statement of ``try/except KeyError: pass``, or in a ``for`` over a
@@ -534,14 +544,45 @@ def header_deletions(stmts, hdrs_path: str, bound: Optional[Dict[str, List[str]]
             benign = all(_handler_benign(h) for h in st.handlers)
             if catches and benign:
                 # only the first deletion is certain to be attempted
-                inner = header_deletions(st.body[:1], hdrs_path, bound)
+                inner = header_deletions(st.body[:1], hdrs_path, bound, mod, clsname, depth)
                 out.extend((nm, n, True) for nm, n, _ in inner)
         elif isinstance(st, ast.For) and isinstance(st.target, ast.Name) and not st.orelse:
             vals = _const_list(st.iter)
+            if vals is None and isinstance(st.iter, ast.Name) and st.iter.id in bound:
+                vals = bound[st.iter.id]
             if vals is not None and not any(isinstance(x, (ast.Break, ast.Return)) for s in st.body for x in ast.walk(s)):
                 b2 = dict(bound)
                 b2[st.target.id] = vals
-                out.extend(header_deletions(st.body, hdrs_path, b2))
+                out.extend(header_deletions(st.body, hdrs_path, b2, mod, clsname, depth))
+        elif isinstance(st, ast.Expr) and isinstance(st.value, ast.Call) and any(q.dotted(a) == hdrs_path for a in list(st.value.args) + [k.value for k in st.value.keywords]):
+            # the header object is handed to a helper: follow a same-module function / same-class method
+            call = st.value
+            h, is_method = _callee(mod, clsname, call) if mod is not None else (None, False)
+            if h is None or depth <= 0 or any(isinstance(a, ast.Starred) for a in call.args):
+                raise AnalysisError("headers are handed to %s(), which cannot be followed" % q.unparse(call.func))
+            a = h.node.args
+            params = [x.arg for x in a.posonlyargs + a.args]
+            if is_method and params and params[0] in ("self", "cls"):
+                params = params[1:]
+            binding = dict(zip(params, call.args))
+            for k in call.keywords:
+                if k.arg:
+                    binding[k.arg] = k.value
+            inner_hdrs = [p for p, v in binding.items() if q.dotted(v) == hdrs_path]
+            if len(inner_hdrs) != 1:
+                raise AnalysisError("cannot bind the headers argument of %s()" % q.unparse(call.func))
+            b2: Dict[str, List[str]] = {}
+            for p, v in binding.items():
+                vals = _const_list(v)
+                if vals is None and isinstance(v, ast.Constant) and isinstance(v.value, str):
+                    vals = [v.value]
+                if vals is None and isinstance(v, ast.Name) and v.id in bound:
+                    vals = bound[v.id]
+                if vals is not None:
+                    b2[p] = vals
+            body = [x for x in h.node.body if not (isinstance(x, ast.Expr) and isinstance(x.value, ast.Constant))]
+            inner = header_deletions(body, inner_hdrs[0], b2, mod, clsname, depth - 1)
+            out.extend((nm, st, sw) for nm, _n, sw in inner)
     return out
 
 
@@ -651,7 +692,7 @@ def redirects(ck):
         ck.ob("C09.redirect-method-rewrite", fin, iff.test, ok, "method becomes GET exactly for (303 and not HEAD) or (301/302 and POST)%s" % ((" - differs for " + ",".join(detail[:6])) if detail else ""))
         body_none = [s for s in iff.body if isinstance(s, ast.Assign) and nr + ".body" in q.assigned_paths(s) and is_none(s.value)]
         ck.ob("C09.redirect-method-rewrite", fin, st, len(body_none) >= 1, "the rewritten request has body None")
-        dl = {nm for nm, _n, _s in header_deletions(iff.body, hdrs)}
+        dl = {nm for nm, _n, _s in header_deletions(iff.body, hdrs, None, fin.module, CONN)}
         ck.ob("C09.redirect-method-rewrite", fin, st, CONTENT_HEADERS <= dl, "Content-Length/-Type/-Encoding and Transfer-Encoding are removed with the body (removed: %s)" % sorted(dl))
         # the rewrite happens before the fetch
         ids = {n.id for n in fin.cfg.nodes_for(st)}
@@ -717,10 +758,14 @@ def redirects(ck):
 
     # -- what happens on the cross-origin branch
     body = strip_if.body
+    for s_ in body:
+        for c in q.calls(s_):
+            if any(q.dotted(a) == nr for a in list(c.args) + [k.value for k in c.keywords]) and q.dotted(c.func) not in ("copy.copy",):
+                raise AnalysisError("the redirected request is handed to %s() on the cross-origin branch; the stripping cannot be followed there" % q.unparse(c.func))
     for fld in ("auth_username", "auth_password"):
         ok = any(isinstance(s, ast.Assign) and nr + "." + fld in q.assigned_paths(s) and is_none(s.value) for s in body)
         ck.ob("C09.strip-credentials", fin, strip_if.test, ok, "%s.%s is cleared on the cross-origin branch" % (nr, fld), construct="cross-origin branch clears %s" % fld)
-    dl = header_deletions(body, hdrs)
+    dl = header_deletions(body, hdrs, None, fin.module, CONN)
     names = {nm for nm, _n, _s in dl}
     for h in sorted(CREDENTIAL_HEADERS):
         ck.ob("C09.strip-credentials", fin, strip_if.test, h in names, "the %s header is deleted on every pass through the cross-origin branch" % h.title(), construct="cross-origin branch deletes %s" % h)
